@@ -595,13 +595,34 @@ impl Shape for Hosty {
     }
 }
 
+// ------------------------------------------------------------------------------------ 18 Entry
+
+include!("entry_struct.rs");
+pub static ENTRY: Spec = Spec {
+    name: "Entry",
+    opts: &[o(Some("r"), Some("req"), Kind::Req, Ty::I64), o(None, Some("opt"), Kind::Opt, Ty::String), o(Some("f"), None, Kind::Flag, Ty::Str), o(None, Some("many"), Kind::Many, Ty::UStr)],
+    pos: &[p("path", Ty::Str, false), p("cnt", Ty::U8, true)],
+    sub: None,
+    help: help_of::<Entry>,
+};
+impl Shape for Entry {
+    const SPEC: &'static Spec = &ENTRY;
+    fn to_model(&self) -> Model {
+        Model {
+            opts: vec![one(num(self.req)), opt(self.opt.as_ref().map(|s| b(s.as_bytes()))), flag(self.f), self.many.iter().map(|u| us(u)).collect()],
+            pos: vec![Some(b(self.path.as_bytes())), self.cnt.map(num)],
+            sub: None,
+        }
+    }
+}
+
 macro_rules! entry {
     ($t:ty, $class:literal) => {
         ShapeEntry { spec: <$t as Shape>::SPEC, class: $class, parse: run_shape::<$t> }
     };
 }
 
-pub static SHAPES: [ShapeEntry; 17] = [
+pub static SHAPES: [ShapeEntry; 18] = [
     entry!(ReqOpt, "shape-ReqOpt"),
     entry!(Aliases, "shape-Aliases"),
     entry!(Flags, "shape-Flags"),
@@ -619,6 +640,7 @@ pub static SHAPES: [ShapeEntry; 17] = [
     entry!(ReqWithSub, "shape-ReqWithSub"),
     entry!(Cased, "shape-Cased"),
     entry!(Hosty, "shape-Hosty"),
+    entry!(Entry, "shape-Entry"),
 ];
 
 pub fn shape_by_name(name: &str) -> Option<&'static ShapeEntry> {
